@@ -10,6 +10,7 @@ import Proofs.HandlerWF
 import Proofs.Arrayterator
 import Proofs.CeSrc
 import Proofs.HlibSrc
+import Proofs.HandlerWhole
 namespace Pydap.C15
 open Pydap Pydap.Handler
 
@@ -80,6 +81,98 @@ theorem C15_body_complete (fmt : Int → Str) (ds : Dataset) (hds : ds.WF) (path
     exact ⟨t, by rw [← h.2, ht]⟩
   · simp at h
   · simp at h
+
+/-- **The statement of the property in one theorem** (composition of `C15_answer`, `C15_body_complete` and the
+    definition of `handle`): for every well-formed dataset, every path and every query string the model's answer is
+    exactly one of
+    (1) status 200 with the content type and description of the response kind the extension names (one of dds, das,
+        dods, ascii) **and a body that reads to its end**;
+    (2) the error document, code −1, status 500, `Content-description: OPeNDAP_error`, because the guarded region
+        raised an exception of a class the model resolves;
+    (3) `answered` — the guarded region reached behaviour the model leaves open (`Exc.unspecified`: the response kinds
+        dmr/html/ver, comparisons of unlike types, paths through base variables, …).  For (3) the theorem says only
+        "no escape": status, headers and the completeness of the body are carried by the oracle alone. -/
+theorem C15_complete_answer (fmt : Int → Str) (ds : Dataset) (hds : ds.WF) (path query : Str) :
+    (∃ k text pre ext, handle fmt ds path query = .ok k (.complete text) ∧ rsplitDot path = some (pre, ext) ∧
+        lookupKind ext = some k ∧ k ≠ .other ∧
+        headersOf (handle fmt ds path query) = some ⟨200, contentType k, contentDescription k⟩) ∨
+    (handle fmt ds path query = .errdoc (-1) ∧ headersOf (handle fmt ds path query) = some errorHeaders ∧
+        ∃ e, e ≠ .unspecified ∧ guarded ds path query = .error e) ∨
+    (handle fmt ds path query = .answered ∧ guarded ds path query = .error .unspecified) := by
+  rcases C15_answer fmt ds path query with ⟨k, body, pre, ext, h, hp, hk, hh⟩ | ⟨h, hh⟩ | h
+  · obtain ⟨t, ht⟩ := C15_body_complete fmt ds hds path query k body h
+    subst ht
+    refine .inl ⟨k, t, pre, ext, h, hp, hk, ?_, hh⟩
+    intro hko
+    subst hko
+    unfold handle at h
+    cases hg : guarded ds path query with
+    | error e => rw [hg] at h; cases e <;> simp at h
+    | ok r =>
+      obtain ⟨k', cds⟩ := r
+      rw [hg] at h
+      simp only [Outcome.ok.injEq] at h
+      rw [guarded_eq ds path query pre ext hp] at hg
+      rw [hk] at hg
+      cases hc : constrained ds (if ext = cs!"das" then [] else query) <;> rw [hc] at hg <;> simp at hg
+  · refine .inr (.inl ⟨h, hh, ?_⟩)
+    unfold handle at h
+    cases hg : guarded ds path query with
+    | ok r => rw [hg] at h; simp at h
+    | error e =>
+      refine ⟨e, ?_, rfl⟩
+      intro he; subst he; rw [hg] at h; simp at h
+  · refine .inr (.inr ⟨h, ?_⟩)
+    unfold handle at h
+    cases hg : guarded ds path query with
+    | ok r => rw [hg] at h; simp at h
+    | error e => rw [hg] at h; cases e <;> simp at h; rfl
+
+-- non-vacuity of the three cases: 200 + complete body, error document, the open class
+example : handle intText ⟨cs!"d", [.base { name := cs!"a", ty := cs!"Int32", shape := [3], dims := [], data := [5, 6, 7] }]⟩
+    (cs!"/d.dds") (cs!"a[0:1]") = .ok .dds (.complete (cs!"Dataset {\n    Int32 a[a = 2];\n} d;\n")) := by decide +kernel
+example : handle intText ⟨cs!"d", [.base { name := cs!"a", ty := cs!"Int32", shape := [3], dims := [], data := [5, 6, 7] }]⟩
+    (cs!"/d.dds") (cs!"a[3]") = .errdoc (-1) := by decide +kernel
+example : handle intText ⟨cs!"d", [.base { name := cs!"a", ty := cs!"Int32", shape := [3], dims := [], data := [5, 6, 7] }]⟩
+    (cs!"/d.dmr") [] = .answered ∧
+    handle intText ⟨cs!"d", [.base { name := cs!"a", ty := cs!"Int32", shape := [3], dims := [], data := [5, 6, 7] }]⟩
+    (cs!"/d.dds") (cs!"a.b") = .answered := by decide +kernel
+
+/-- **The empty constraint is valid and is answered with data** (the one "valid constraint ⇒ 200, not the error
+    document" statement proved for all datasets): for every well-formed dataset whose variables have distinct names
+    (pydap keeps them in a dict), every path `<anything>.<ext>` with `ext` one of dds / das / dods / ascii / asc, and the
+    empty query string — or any query string at all when the response is `das`, which drops it — the handler answers
+    200 with that kind and a body that reads to its end.  (Proof: `parse_ce("")` is the empty projection and selection;
+    `apply_selection` leaves the dataset as it is; the projection "every key, whole" collects every variable once, in
+    order — here the distinct names are used; "fix sequence data" finds every column of every sequence in itself; the
+    slice pass has nothing to slice.) -/
+theorem C15_unconstrained_200 (fmt : Int → Str) (ds : Dataset) (hds : ds.WF) (hn : (ds.vars.map Var.name).Nodup)
+    (path query pre ext : Str) (k : Kind) (hp : rsplitDot path = some (pre, ext)) (hk : lookupKind ext = some k)
+    (hko : k ≠ .other) (hq : query = [] ∨ ext = cs!"das") :
+    ∃ text, handle fmt ds path query = .ok k (.complete text) := by
+  obtain ⟨cds, hc⟩ := constrain_whole ds hds hn
+  have hq' : (if ext = cs!"das" then [] else query) = [] := by
+    rcases hq with rfl | h
+    · simp
+    · simp [h]
+  have hcd : constrained ds [] = .ok cds := by
+    have hpc : parseCE [] = .ok ([], []) := by decide
+    simp [constrained, hpc, hc]
+  have hg : guarded ds path query = .ok (k, cds) := by
+    rw [guarded_eq ds path query pre ext hp, hq', hcd]
+    cases k <;> simp_all
+  have hh : handle fmt ds path query = .ok k (bodyOf fmt k cds) := by simp [handle, hg]
+  obtain ⟨t, ht⟩ := C15_body_complete fmt ds hds path query k _ hh
+  exact ⟨t, by rw [hh, ht]⟩
+
+-- non-vacuity: a dataset with an array and a sequence, asked for its DDS with no constraint and for its DAS with one
+example : ∃ text, handle intText ⟨cs!"d", [.base { name := cs!"a", ty := cs!"Int32", shape := [2], dims := [], data := [5, 6] },
+      .seq cs!"s" [(cs!"i", cs!"Int32")] [[1], [2]]]⟩ (cs!"/x/d.dds") [] = .ok .dds (.complete text) :=
+  C15_unconstrained_200 intText _ (by
+      intro v hv; simp at hv; rcases hv with rfl | rfl
+      · exact ⟨rfl, rfl, trivial⟩
+      · intro r hr; simp at hr; rcases hr with rfl | rfl <;> rfl)
+    (by decide) _ _ (cs!"/x/d") (cs!"dds") .dds (by decide) (by decide) (by decide) (.inl rfl)
 
 /-! ### histories: several datasets in one process -/
 
